@@ -28,7 +28,7 @@ def run(chk):
     rng = core.Rng(chk.seed * 7919 + 4)
     cases = []
     for _ in range(N[chk.tier]):
-        d = S.gen_treeinfo(rng)
+        d = S.gen_treeinfo(rng, uid_twins=True)
         mv = None
         if rng.random() < 0.4:
             mv = rng.choice(sorted(d["variants"]))
